@@ -29,8 +29,14 @@ class Posters:
 
     def body(self, s, p):
         aoenv.reset()
+        script, klass = None, None
+        if p.get("self_post"):          # the handler of A posts B to its own chart
+            script = {"A": [("post_fifo" if p["self_post"] == "fifo" else "post_lifo", "B", "h")]}
+        if p.get("sub_qsize"):          # a subclass with a smaller QUEUE_SIZE (the documented way to size an active object)
+            import miros.activeobject as ao_mod
+            klass = type("SmallAO", (ao_mod.ActiveObject,), {"QUEUE_SIZE": p["sub_qsize"]})
         with H.QueueSize(p.get("qsize")):
-            ao = H.new_ao("ao", H.make_state())
+            ao = H.new_ao("ao", H.make_state(script=script), klass=klass)
         s.settle()
         ld = ao.locking_deque
         s.fingerprint = lambda: (tuple(H.label_of(x) for x in ld.deque), ld.locking_queue._qsize())
@@ -126,6 +132,8 @@ class PeriodicPosters(Posters):
 def periodic(tier):
     ps = []
     for base in params(tier):
+        if base.get("self_post"):
+            continue
         for who in range(len(base["kinds"])):
             if who > 0 and base["kinds"][who] == base["kinds"][0]:
                 continue
@@ -144,9 +152,13 @@ def params(tier):
     for kinds in (["fifo", "fifo"], ["lifo", "lifo"], ["fifo", "lifo"]):
         ps.append({"kinds": kinds, "qsize": None})
         ps.append({"kinds": kinds, "qsize": 3})
+    # a chart that posts to itself from its handlers, on a subclass with a small QUEUE_SIZE, posters racing ahead
+    ps.append({"kinds": ["fifo", "fifo", "fifo"], "qsize": None, "sub_qsize": 2, "self_post": "fifo", "bound": 1})
+    ps.append({"kinds": ["lifo", "fifo"], "qsize": None, "sub_qsize": 1, "self_post": "lifo", "bound": 1})
     if tier == "thorough":
         for kinds in (["fifo", "fifo", "fifo"], ["fifo", "lifo", "fifo"], ["lifo", "lifo", "lifo"]):
             ps.append({"kinds": kinds, "qsize": 3})
+        ps.append({"kinds": ["fifo", "fifo", "fifo"], "qsize": None, "sub_qsize": 2, "self_post": "fifo", "bound": 2})
     return ps
 
 
@@ -158,7 +170,7 @@ def run(tier):
     # instruction granularity for the two-poster harnesses (a preemption inside one source line)
     # (token-protocol code only; two preemptions of which at most one inside a source line; thorough adds one harness
     # with both anywhere)
-    ips = [dict(p, bound=2.015) for p in params(tier) if len(p["kinds"]) == 2][: (1 if tier == "quick" else 6)]
+    ips = [dict(p, bound=2.015) for p in params(tier) if len(p["kinds"]) == 2 and not p.get("self_post")][: (1 if tier == "quick" else 6)]
     hy = Posters("instr", "tokens")
     hy.intra_cost = 1.01
     st.merge(explore.explore(hy, ips, 2.015))
